@@ -405,6 +405,18 @@ func VerifC12_Probe() {
 	vCheckDocument(text, zzverif.Bool("allowTrailing"))
 }
 
+// VerifC12_Mutation: every corpus document with ONE byte, at any position,
+// replaced by an arbitrary byte: accepted iff the mutated text is RFC 8259,
+// and then the lexeme stream rebuilds it (single-token mutations reach scanner
+// states in the MIDDLE of long documents that short texts and truncations do
+// not: closing brackets, separators and escapes after the fault).
+func VerifC12_Mutation() {
+	zzverif.Expect("accepted", "rejected")
+	doc := []byte(vCorpus[zzverif.IntRange("doc", 0, len(vCorpus)-1)])
+	doc[zzverif.IntRange("at", 0, len(doc)-1)] = zzverif.Byte("byte")
+	vCheckDocument(doc, zzverif.Bool("allowTrailing"))
+}
+
 // VerifC12_LenAfterUse: Len() (and Check()) of a document do not depend on
 // what was done with the same object before: reading its whole lexeme stream,
 // reading part of it, or checking it.
